@@ -147,7 +147,7 @@ def execute(case):
             res.violate(f"{op}:raised:{exc_name(e)}", f"history step {step} {op} raised {e!r}; trace {trace}")
             return res.dict()
         trace.append(op)
-        nwarn = printed.count(WARNING)
+        nwarn = len([l for l in printed.splitlines() if l.strip()])     # any printed line counts as the warning (wording may change)
         expect = 1 if (node.obsolete and not node.warned) else 0
         if nwarn != expect:
             if expect == 1:
@@ -217,7 +217,7 @@ def execute(case):
         for rep in range(2):
             with capture_stdout() as buf:
                 nd.lst.pluck("_tag_")
-            nwarn = buf.getvalue().count(WARNING)
+            nwarn = len([l for l in buf.getvalue().splitlines() if l.strip()])
             expect = 1 if (nd.obsolete and not nd.warned) else 0
             if nwarn != expect:
                 key = f"obsolete-list-did-not-warn:{nd.how}" if expect else ("warned-more-than-once" if nd.obsolete else f"non-obsolete-list-warned:{nd.how}")
